@@ -1,53 +1,9 @@
 (* C17 - the chunk-independence theorem for the concrete skipper / inner decoder, with its exact guard. *)
 From Coq Require Import NArith List Bool Arith Lia.
-From SV.Stream Require Import Skip SkipProofs Json1 Dec Spec DecProofs1 DecProofs2.
+From SV.Stream Require Import Skip SkipProofs Json1 SkipValid Dec Spec DecProofs1 DecProofs2.
 Import ListNotations.
 
 Definition bytes_eq_dec : forall a b : bytes, {a = b} + {a <> b} := list_eq_dec N.eq_dec.
-
-(* ---- the inner decoder never returns an empty text *)
-Lemma vscan_mono : forall l strict m stk i n,
-  (vscan strict m stk l i = Complete n \/ vscan strict m stk l i = AtEnd n) -> i <= n.
-Proof.
-  induction l as [|c l IH]; intros strict m stk i n H; simpl in H.
-  - destruct stk; [destruct (num_final m)|]; destruct H as [H|H]; inversion H; lia.
-  - destruct (step strict m stk c) as [m' stk'| | |].
-    + apply IH in H. lia.
-    + destruct H as [H|H]; inversion H; lia.
-    + destruct H as [H|H]; inversion H; lia.
-    + destruct H as [H|H]; discriminate.
-Qed.
-
-Lemma begin_value_cont : forall stk c, match begin_value stk c with DoneIncl | DoneExcl => False | _ => True end.
-Proof.
-  intros stk c. unfold begin_value.
-  repeat match goal with |- context [if ?b then _ else _] => destruct b end; exact I.
-Qed.
-
-Lemma vscan_text : forall l strict i n,
-  (vscan strict MVal [] l i = Complete n \/ vscan strict MVal [] l i = AtEnd n) ->
-  drop_ws (firstn (n - i) l) <> [].
-Proof.
-  induction l as [|c l IH]; intros strict i n H; simpl in H.
-  - destruct H as [H|H]; discriminate.
-  - destruct (is_space c) eqn:SP.
-    + pose proof (vscan_mono _ _ _ _ _ _ H) as M.
-      specialize (IH strict (S i) n H).
-      replace (n - i) with (S (n - S i)) by lia. simpl. rewrite SP. exact IH.
-    + pose proof (begin_value_cont [] c) as BC.
-      destruct (begin_value [] c) as [m' stk'| | |] eqn:BV; try contradiction.
-      * pose proof (vscan_mono _ _ _ _ _ _ H) as M.
-        replace (n - i) with (S (n - S i)) by lia. simpl. rewrite SP. discriminate.
-      * destruct H as [H|H]; discriminate.
-Qed.
-
-Lemma inner_decode_pos : forall w v, inner_decode w = Some v -> 1 <= length v.
-Proof.
-  intros w v H. unfold inner_decode, scan_value in H.
-  destruct (vscan false MVal [] w 0) as [n|n| |] eqn:V; try discriminate; inversion H; subst;
-    (assert (T : drop_ws (firstn (n - 0) w) <> []) by (eapply vscan_text; eauto));
-    rewrite Nat.sub_0_r in T; destruct (drop_ws (firstn n w)); [congruence|simpl; lia| congruence | simpl; lia].
-Qed.
 
 (* ---- facts about the skipper used by the guard *)
 
@@ -141,20 +97,23 @@ Definition gv_step (avx2 : bool) (fin : ioerr) (r : bytes) : gvres :=
         end
       else GNo
     else if selfdelim c then
-      match skip_one_fast avx2 r with
-      | SkOk O n =>
-        match inner_decode (firstn n r), scan_value true r with
-        | Some v, Complete n' =>
-          if gv_ok n n' r then (if bytes_eq_dec v (firstn n r) then GVal n v else GNo) else GNo
-        | None, Invalid => if gv_ok n n r then GEnd TSyntax else GNo
-        | _, _ => GNo
-        end
-      | SkEof =>
-        match scan_value true r with
-        | Incomplete => GEnd (match fin with EOF => TSyntax | _ => TIo fin end)
+      match scan_value true r with
+      | Complete n => GVal n (firstn n r)            (* a VALID object / array / string / literal: nothing else to check *)
+      | Incomplete =>
+        match skip_one_fast avx2 r with
+        | SkEof => GEnd (match fin with EOF => TSyntax | _ => TIo fin end)
         | _ => GNo
         end
-      | _ => GNo
+      | Invalid =>
+        match skip_one_fast avx2 r with
+        | SkOk O n =>
+          match inner_decode (firstn n r) with
+          | None => if gv_ok n n r then GEnd TSyntax else GNo
+          | Some _ => GNo
+          end
+        | _ => GNo
+        end
+      | AtEnd _ => GNo
       end
     else
       match skip_one_fast avx2 r, scan_value true r with
@@ -245,24 +204,20 @@ Proof.
         right. right. split; [first [exact NS|reflexivity]|]. split; [reflexivity|]. split; [first [exact ME|reflexivity]|]. split; [first [exact ID|reflexivity]|].
         split; [lia|]. right. split; [reflexivity|lia].
   - destruct (selfdelim c) eqn:SD.
-    + destruct (skip_one_fast avx2 (c :: rest)) as [[|y] m| |] eqn:SK; try discriminate.
-      * destruct (inner_decode (firstn m (c :: rest))) as [v'|] eqn:ID.
-        -- destruct (scan_value true (c :: rest)) as [n'|n'| |] eqn:SV; try discriminate.
-           destruct (gv_ok m n' (c :: rest)) eqn:C; [|discriminate].
-           destruct (bytes_eq_dec v' (firstn m (c :: rest))) as [EQ|]; [|discriminate].
-           injection H as Hn' Hv'; subst m; rewrite Hv' in *; clear Hv'.
-           unfold gv_ok in C.
-           apply andb_prop in C. destruct C as [C C4]. apply andb_prop in C. destruct C as [C C3].
-           apply andb_prop in C. destruct C as [C1 C2].
-           apply Nat.eqb_eq in C1. apply Nat.leb_le in C2, C3. apply negb_true_iff in C4. subst n'.
-           exists c, rest. split; [reflexivity|]. split; [exact EQ|].
-           split. { rewrite EQ, firstn_length. lia. }
-           split; [discriminate|].
-           left. split; [first [exact NS|reflexivity]|]. split; [eapply selfdelim_framed; eauto|].
-           split; [lia|]. split; [first [exact C4|reflexivity]|]. split; [first [exact ID|reflexivity]|reflexivity].
-        -- destruct (scan_value true (c :: rest)); try discriminate.
-           destruct (gv_ok m m (c :: rest)); discriminate.
-      * destruct (scan_value true (c :: rest)); discriminate.
+    + destruct (scan_value true (c :: rest)) as [n'|n'| |] eqn:SV.
+      * injection H as Hn' Hv'. subst n'.
+        destruct (skip_on_valid avx2 true c rest n SD SV) as (SK & Hn & Hl).
+        exists c, rest. split; [reflexivity|]. split; [symmetry; exact Hv'|].
+        split. { rewrite <- Hv', firstn_length. lia. }
+        split; [discriminate|].
+        left. split; [exact NS|]. split; [eapply selfdelim_framed; eauto|].
+        split; [exact Hn|]. split; [exact Hl|]. split; [|reflexivity].
+        rewrite <- Hv'. apply inner_on_valid; auto.
+      * discriminate.
+      * destruct (skip_one_fast avx2 (c :: rest)); discriminate.
+      * destruct (skip_one_fast avx2 (c :: rest)) as [[|y] m| |]; try discriminate.
+        destruct (inner_decode (firstn m (c :: rest))); [discriminate|].
+        destruct (gv_ok m m (c :: rest)); discriminate.
     + destruct (skip_one_fast avx2 (c :: rest)); try discriminate.
       destruct (scan_value true (c :: rest)); discriminate.
 Qed.
@@ -299,22 +254,20 @@ Proof.
       * destruct (scan_value true (c :: rest)) as [n'|n'| |] eqn:SV; try discriminate.
         inversion H; subst. left. repeat split; eauto.
   - right. destruct (selfdelim c) eqn:SD.
-    + destruct (skip_one_fast avx2 (c :: rest)) as [[|y] m| |] eqn:SK; try discriminate.
-      * destruct (inner_decode (firstn m (c :: rest))) as [v'|] eqn:ID.
-        -- destruct (scan_value true (c :: rest)); try discriminate.
-           destruct (gv_ok _ _ _); [|discriminate]. destruct (bytes_eq_dec _ _); discriminate.
-        -- destruct (scan_value true (c :: rest)) eqn:SV; try discriminate.
-           destruct (gv_ok m m (c :: rest)) eqn:C; [|discriminate].
-           inversion H; subst. right. left.
-           unfold gv_ok in C.
-           apply andb_prop in C. destruct C as [C C4]. apply andb_prop in C. destruct C as [C C3].
-           apply andb_prop in C. destruct C as [C1 C2].
-           apply Nat.leb_le in C2, C3. apply negb_true_iff in C4.
-           split; [reflexivity|]. split; [reflexivity|]. split; [reflexivity|].
-           exists m. split; [eapply selfdelim_framed; eauto|]. split; [lia|]. split; [exact C4|exact ID].
-      * destruct (scan_value true (c :: rest)) eqn:SV; try discriminate.
+    + destruct (scan_value true (c :: rest)) as [n'|n'| |] eqn:SV; try discriminate.
+      * destruct (skip_one_fast avx2 (c :: rest)) as [y m| |] eqn:SK; try discriminate.
         inversion H; subst. right. right.
         split; [reflexivity|]. split; [eapply skip_eof_prefix; eauto|]. split; reflexivity.
+      * destruct (skip_one_fast avx2 (c :: rest)) as [[|y] m| |] eqn:SK; try discriminate.
+        destruct (inner_decode (firstn m (c :: rest))) as [v'|] eqn:ID; [discriminate|].
+        destruct (gv_ok m m (c :: rest)) eqn:C; [|discriminate].
+        inversion H; subst. right. left.
+        unfold gv_ok in C.
+        apply andb_prop in C. destruct C as [C C4]. apply andb_prop in C. destruct C as [C C3].
+        apply andb_prop in C. destruct C as [C1 C2].
+        apply Nat.leb_le in C2, C3. apply negb_true_iff in C4.
+        split; [reflexivity|]. split; [reflexivity|]. split; [reflexivity|].
+        exists m. split; [eapply selfdelim_framed; eauto|]. split; [lia|]. split; [exact C4|exact ID].
     + destruct (skip_one_fast avx2 (c :: rest)) eqn:SK; try discriminate.
       destruct (scan_value true (c :: rest)) eqn:SV; try discriminate.
       inversion H; subst. left.
